@@ -29,7 +29,18 @@ BOUNDS = (
     "max_size=0 with request_payload=L at 6 limits, and the clamp 65535 on 1 (quick) / 4 "
     "(thorough) messages larger than 65535 octets.  The low-level dns.renderer.Renderer is "
     "driven with the same record sets at the boundary limits, continuing after TooBig, to "
-    "check rollback (whole sets, counts, no pointer into removed octets).  Time-boxed at 88% "
+    "check rollback (whole sets, counts, no pointer into removed octets).  Zero-length EDNS "
+    "options (RFC 6891 OPTION-LENGTH 0), run first with their own seeded generator: messages of "
+    "580-1000 octets (before padding) whose OPT holds one of five option patterns - the single "
+    "NSID request, 2-5 empty options with codes from {NSID, DAU, DHU, N3U, EXPIRE, KEEPALIVE, "
+    "local/unassigned}, empty options scattered among / after / before non-empty ones; empty "
+    "ones handed over as dns.edns.GenericOption, NSID also as NSIDOption - with TSIG and the "
+    "padding block fixed by plan: EVERY limit 512..len+16 x prefer_truncation off/on for "
+    "{no padding, padding 16/128 (thorough: any block)} x {TSIG off, on} (quick: 4 subjects, "
+    "thorough: 40), and the boundary limits for padding blocks 16, 128, 468, {1,2,3,7,255,256,"
+    "512} and a random one x TSIG off/on (quick: 8 subjects, thorough: 132), each also with "
+    "request_payload as the limit at 4 limits; judged by the same clauses (size of every "
+    "zero-length option = its 4-octet header, OPT RDATA compared octet for octet).  Time-boxed at 88% "
     "of the tier budget.  TSIG uses HMAC only; nothing here needs the `cryptography` package "
     "(GSS-TSIG, whose MAC size is not predictable, is out of scope)."
 )
@@ -71,7 +82,7 @@ def _f(out, clause, what, sig):
 _EMPTY_CODES = (3, 3, 5, 6, 7, 9, 11, 65001, 65534, 4, 26946)
 _EMPTY_PATTERNS = ("nsid", "empties", "mixed", "tail", "head")
 _SPECIAL_CODES = (8, 10, 12, 15, 18, 22, 23, 24, 25)
-_VARIANT_MIN, _VARIANT_MAX = 600, 1700  # octets of the unlimited rendering
+_VARIANT_MIN, _VARIANT_MAX = 580, 1000  # octets of the unlimited rendering before padding
 SIG_EMPTY_DROPPED = {
     "site": "Renderer.add_opt",
     "class": "OPT differs: the zero-length options are missing from the rendered OPT",
@@ -112,7 +123,7 @@ class Subject:
         """variant (None for the ordinary subjects): configuration of a subject of the
         zero-length-option class, {"opts": pattern, "tsig": bool, "pad": int, "generic": bool};
         EDNS is forced on, the option list is replaced by one of _EMPTY_PATTERNS, padding block
-        and TSIG are as stated, and the message is kept small (about 600-1700 octets) so that
+        and TSIG are as stated, and the message is kept small (580-1000 octets) so that
         every limit can be swept cheaply."""
         self.sub = sub
         self.variant = variant
@@ -152,7 +163,7 @@ class Subject:
                 for s in m.sections
                 for r in s
             )
-            if body > (1000 if variant is None else 760) or _attempt == 3:
+            if body > (1000 if variant is None else 700) or _attempt == 3:
                 break
             mult *= 2
         self.m = m
@@ -299,7 +310,7 @@ class Subject:
         if len(self.tail_frames) != exp_tail:
             self.problem = "the unlimited rendering does not end with the configured OPT/TSIG"
             return
-        if self.variant is not None and not (_VARIANT_MIN <= len(self.full) <= _VARIANT_MAX):
+        if self.variant is not None and not (_VARIANT_MIN <= self.E[-1] + self.opt_size() + self.tsig_size() <= _VARIANT_MAX):
             return  # not a finding: the driver draws another subject
         self.ok = True
 
@@ -817,12 +828,12 @@ def run(R):
     subjects = 0
     unusable = 0
 
-    def new_subject(huge=False):
+    def new_subject(huge=False, variant=None, rng=None):
         nonlocal unusable
-        for _ in range(5):
-            sub = R.rng.getrandbits(48)
+        for _ in range(5 if variant is None else 12):
+            sub = (rng or R.rng).getrandbits(48)
             try:
-                s = Subject(sub, huge=huge)
+                s = Subject(sub, huge=huge, variant=variant)
             except Exception as e:
                 R.note(f"generator failed for sub={sub}: {type(e).__name__}: {e}")
                 continue
@@ -832,7 +843,7 @@ def run(R):
                     "C08.parseable",
                     s.problem,
                     sig={"site": "Message.to_wire(unlimited)", "class": "precondition failed"},
-                    replay={"desc": {"sub": sub, "L": 65535, "pt": False, "route": "max_size", "huge": huge}, "clause": "C08.parseable", "sig": {"site": "Message.to_wire(unlimited)", "class": "precondition failed"}},
+                    replay={"desc": {"sub": sub, "L": 65535, "pt": False, "route": "max_size", "huge": huge, "variant": variant}, "clause": "C08.parseable", "sig": {"site": "Message.to_wire(unlimited)", "class": "precondition failed"}},
                 )
                 unusable += 1
                 continue
@@ -848,6 +859,10 @@ def run(R):
         if s is None:
             continue
         _huge(R, s)
+
+    # ---- OPT records holding zero-length options (own generator: the draws of R.rng, and so
+    # the ordinary subjects of a given seed, are the same as without this block)
+    _empty_option_cases(R, new_subject)
 
     # ---- boundary limits + request_payload route + low-level renderer, many subjects
     for i in range(n_bound + n_full):
@@ -886,6 +901,80 @@ def run(R):
             R.case("C08.no_dangling_pointer", key=(s.sub, L, "renderer"), nontrivial=dropped > 0)
             _record(R, s, findings, desc)
     R.note(f"subjects {subjects}, outcomes {stats}, unusable {unusable}")
+
+
+def _empty_option_plan(quick, vr):
+    """(variant, sweep) list; sweep is 'every' (every limit 512..len+16) or 'bounds'."""
+    pats = list(_EMPTY_PATTERNS)
+    vr.shuffle(pats)
+    plan = []
+    n = [0]
+
+    def add(tsig, pad, sweep, pattern=None):
+        if pattern is None:
+            pattern = pats[n[0] % len(pats)]
+        n[0] += 1
+        generic = True if pattern == "nsid" and tsig is False and pad == 0 else vr.random() < 0.6
+        plan.append(({"opts": pattern, "tsig": tsig, "pad": pad, "generic": generic}, sweep))
+
+    other_pads = (1, 2, 3, 7, 255, 256, 512)
+    for rep in range(1 if quick else 5):
+        # every limit, no padding: (prefer_truncation off/on) x TSIG off/on
+        add(False, 0, "every", "nsid" if rep == 0 else None)
+        add(True, 0, "every", vr.choice(("mixed", "empties")) if rep == 0 else None)
+        # every limit with padding
+        add(False, 16 if quick else vr.choice((16, 128)), "every")
+        add(True, vr.choice((16, 128)), "every")
+        if not quick:
+            add(False, 0, "every")
+            add(True, 0, "every")
+            add(False, vr.choice(other_pads + (128, 468)), "every")
+            add(True, vr.choice(other_pads + (468,)), "every")
+    # padding cases at the boundary limits
+    if quick:
+        pads = [16, 128, 128, 468, 468] + vr.sample(other_pads, 2) + [vr.randint(1, 600)]
+        tsigs = [True, False, True, False, True] + [vr.random() < 0.5 for _ in range(3)]
+        for pad, tsig in zip(pads, tsigs):
+            add(tsig, pad, "bounds")
+    else:
+        for rep in range(6):
+            for pad in (16, 128, 468) + other_pads + (vr.randint(1, 600),):
+                for tsig in (False, True):
+                    add(tsig, pad, "bounds")
+    return plan
+
+
+def _empty_option_cases(R, new_subject):
+    """Subjects whose OPT holds options with a zero-length payload (alone, several, mixed
+    with non-empty ones): every-limit sweeps and padding cases, judged by the same clauses."""
+    vr = random.Random(R.seed * 7919 + 0xC08)
+    stats = {}
+    done = 0
+    for variant, sweep in _empty_option_plan(R.quick, vr):
+        if _stop(R):
+            R.note(f"time budget reached after {done} zero-length-option subjects")
+            break
+        s = new_subject(variant=variant, rng=vr)
+        if s is None:
+            R.note(f"no usable zero-length-option subject for {variant}")
+            continue
+        if not any(not v for _, v in s.m.options) or s.m.edns < 0:
+            R.note(f"harness: sub={s.sub} {variant} has no zero-length option")
+            continue
+        done += 1
+        limits = range(512, len(s.full) + 17) if sweep == "every" else s.boundary_limits()
+        R.sample("C08.opt_tsig_kept", dict(_describe(s), limits=len(limits), sweep="every limit" if sweep == "every" else "boundaries"))
+        if not _sweep(R, s, limits, stats):
+            break
+        bl = s.boundary_limits()
+        cache = {}
+        for L in vr.sample(bl, min(4, len(bl))):
+            for pt in (False, True):
+                desc = {"sub": s.sub, "L": L, "pt": pt, "route": "payload", "huge": False, "variant": variant}
+                findings, outcome = s.check_limit(L, pt, "payload", cache)
+                R.case("C08.within_limit", key=(s.sub, L, pt, "payload"), nontrivial=outcome == "returned")
+                _record(R, s, findings, desc)
+    R.note(f"zero-length-option subjects {done}, outcomes {stats}")
 
 
 def _huge(R, s):
